@@ -267,6 +267,18 @@ def o_c10(meta, ans, ctx):
 
 
 def o_c11(meta, ans, ctx):
+    if meta.get('kind') == 'fload':
+        p = ans.split(' ')
+        if p[0] != 'fload' or len(p) < 2: return 'shape: ' + ans[:60]
+        if meta['cut'] is None:
+            return None if p[1] == 'ok' else 'file-whole: load_full of the complete file failed (%s)' % ' '.join(p[1:3])
+        l = meta['loader']
+        if l == 'full' and p[1:3] != ['err', 'read']:
+            return 'file-full: load_full of a file cut at %d of %d did not return a read error (%s)' % (meta['cut'], meta['total'], ' '.join(p[1:3]))
+        if l == 'map' and p[1] == 'ok':
+            return 'file-map: mmap of a file cut at %d of %d returned a structure' % (meta['cut'], meta['total'])
+        # load_mem / load_mmap zero-extend the file: outside the clause; their outcome is compared with the model only
+        return None
     if meta.get('kind') != 'case':
         return None
     a = parse_case_answer(ans)
@@ -844,7 +856,7 @@ SPECS = {
     'C02': CaseSpec(o_c02, 'serialize each generated value, deserialize_eps from a 128-aligned (and 64 mod 128) buffer and deserialize_full the same bytes.'),
     'C07': CaseSpec(o_c07, 'layout of every zero-copy type; schema rows (real write_bytes/padding events) and byte counts for every generated value.'),
     'C10': CaseSpec(o_c10, 'every single-bit flip of the 29 fixed header bytes (all 232 for a quarter of the types in the quick tier, a sample of 48 for the others), the reversed cookie, minor/major/usize boundary values; both modes.'),
-    'C11': CaseSpec(o_c11, 'every cut point k in [0,len) of the streams of generated values (streams up to 400 bytes in the quick tier); both modes.'),
+    'C11': CaseSpec(o_c11, 'every cut point k in [0,len) of the streams of generated values (streams up to 400 bytes in the quick tier); both modes; files cut at 8 fixed and 4 (16) random points loaded through load_full, mmap, load_mem, load_mmap.'),
     'C12': CaseSpec(o_c12, 'every base residue 0..127 (all for half of the types with aligned blocks in the quick tier, 16 residues for the rest) x generated values; block list taken from the real schema.'),
     'C03': CaseSpec(o_c03, 'offsets of every borrowed part of real ε-copy results (pointer minus buffer start, printed by Show on the ε types) against the offsets of the writer blocks in the model; allocator calls and bytes during deserialize_eps for each value and for the same value with every borrowed payload repeated x4 and x16 (x2, x8, x64 thorough).'),
     'C06': CaseSpec(o_c06, 'golden corpus (147 files written by the build at claim time for the fixed corpus universe): re-serialization must reproduce the stored bytes, both deserializers must return the stored value, hash words must be the stored ones; plus bytes / hash feeds / digests of every generated type and value against the independent Lean encoder and XXH3 port.'),
